@@ -106,6 +106,8 @@ class Checker:
             # an element / slice of an array is a view of it (of a private array: still private)
             return base
         if isinstance(e, ast.Call): return self.call(e)
+        if isinstance(e, ast.Starred):
+            v = self.ev(e.value); return ALIAS if (v == ALIAS or (isinstance(v, Tup) and ALIAS in v.items)) else (FRESH if v != VALUE else VALUE)
         if isinstance(e, ast.Lambda): return VALUE
         if isinstance(e, ast.JoinedStr): return VALUE
         raise Undecided('ownership typing: expression %s (line %d)' % (type(e).__name__, e.lineno))
@@ -161,7 +163,10 @@ class Checker:
         if isinstance(target, ast.Subscript):
             base_text = ast.unparse(target.value)
             base = self.ev(target.value)
-            if base_text in self.c.get('caches', ()):
+            kind0 = st if not isinstance(st, Tup) else (ALIAS if any(x == ALIAS for x in st.items) else FRESH)
+            # an object stored under a key of a container field of self that the contract does not declare an array is memoisation too
+            auto = base_text.startswith('self.') and '[' not in base_text and kind0 != VALUE and base_text not in self.c.get('array_fields', ()) and base_text not in self.c.get('owned_fields', ())
+            if base_text in self.c.get('caches', ()) or auto:
                 # memoisation: what goes in must be private, or an alias that is never handed out nor modified
                 kind = st if not isinstance(st, Tup) else (ALIAS if any(x == ALIAS for x in st.items) else FRESH)
                 if kind == ALIAS and isinstance(node.value, ast.Name):
